@@ -59,7 +59,7 @@ struct C20 : Harness {
         return rc::gen::exec([bf]() {
             Program p;
             int tool = *irange(0, 2);   // 0 ctr, 1 tweak, 2 ecb
-            if (bf && *chance(4)) {
+            if (bf && *irange(0, 9999) < 2) {      // (about eight such cases per shard of 40 000: each costs 10-60 s)
                 // an all-zero input of 2^32 + k bytes (sparse on disk); checked by length and by sampled blocks
                 int bs = *rc::gen::element(8, 16);
                 Op c = mkop("tool");
